@@ -59,7 +59,8 @@ type finding struct {
 type counters map[string]int64
 
 // pex uses an unsynchronised package-level PRNG in CanTry (reached from Random/Trusted); sequences run
-// on several goroutines, so those calls are serialised here
+// on several goroutines (each on its OWN Pex), so those calls are serialised here; the concurrent leg
+// (conc.go) shares one Pex between goroutines like the node does and does not serialise anything
 var canTryMu sync.Mutex
 
 const oldStamp = int64(1000000000) // 2001: older than any expiry used here
@@ -546,11 +547,15 @@ type witness struct {
 	Ops    []Op              `json:"ops"`
 	Step   int               `json:"failing_step"`
 	Detail map[string]string `json:"detail"`
+	Conc   *cRound           `json:"conc,omitempty"`
 }
 
 func main() {
 	logging.SetLevel(logrus.PanicLevel)
 	logging.Disable()
+	if vf.ChildMode() == "conc" {
+		concChild()
+	}
 	r := vf.Start("C26", "exploration")
 	debug.SetGCPercent(400) // many tiny allocations on 16 workers: avoid back-to-back GC cycles
 	base := vf.TempDir("c26")
@@ -565,6 +570,15 @@ func main() {
 			fmt.Fprintln(os.Stderr, "cannot read replay file")
 			os.RemoveAll(base)
 			os.Exit(3)
+		}
+		if doc.Witness.Conc != nil {
+			// a round of the concurrent leg: the interleaving is not recorded, the plan is repeated
+			r.Distinct("replay:a")
+			r.Distinct("replay:b")
+			replayConc(r, doc.Witness.Conc, 400)
+			r.Sample(map[string]interface{}{"replayed": p, "repetitions": 400})
+			os.RemoveAll(base)
+			r.Finish("400 repetitions of a recorded concurrent round (uncontrolled interleaving)")
 		}
 		cnt, lc := counters{}, map[string]int64{}
 		_, f := runSeq(base, 0, nil, &doc.Witness.Setup, doc.Witness.Ops, 0, cnt, lc, nil)
@@ -581,6 +595,10 @@ func main() {
 		os.RemoveAll(base)
 		r.Finish("replay of a recorded operation sequence")
 	}
+
+	// concurrent leg: the race-instrumented child runs beside the sequential sequences, the plain one after them
+	nConc, nConcRace := r.Pick(240, 3000), r.Pick(80, 1000)
+	raceLeg := startConc(r, "race", nConcRace)
 
 	nSeq := r.Pick(6000, 300000)
 	const nOps = 30
@@ -632,6 +650,10 @@ func main() {
 		mu.Unlock()
 	})
 	r.Eval(int64(nSeq))
+	plainLeg := startConc(r, "plain", nConc)
+	plainLeg.finish()
+	raceLeg.finish()
+	concEvidence(r, nConc)
 	for h := range allStates {
 		r.Distinct("st:" + strconv.FormatUint(h, 36))
 	}
@@ -686,10 +708,38 @@ func main() {
 	r.Floor("states.distinct-peer-lists", int64(r.Pick(5000, 100000)))
 	r.Floor("addpeer.classes-rejected", 50)
 	r.Floor("addpeer.classes-accepted", 4)
+	// concurrent leg (plain build "conc.*", race build "race.*"); the overlap floors are far below what an
+	// idle or a loaded 16-core machine shows (more than half of the rounds)
+	for pre, n := range map[string]int64{"conc.": int64(nConc), "race.": int64(nConcRace)} {
+		r.Floor(pre+"children", 1)
+		r.Floor(pre+"rounds", n*9/10)
+		r.Floor(pre+"rounds.several-bulk-adds-each-filling-the-free-slots", n/2)
+		r.Floor(pre+"rounds.with-overlapping-addpeers", n/20)
+		r.Floor(pre+"calls-started-while-another-in-flight", n)
+		r.Floor(pre+"rounds.ended-at-exactly-max", n/4)
+		r.Floor(pre+"calls.AddPeers", n*5)
+		r.Floor(pre+"calls.AddPeer", n)
+		r.Floor(pre+"calls.RemovePeer", n/2)
+		r.Floor(pre+"calls.Save", n/2)
+		r.Floor(pre+"calls.Random", n/2)
+		r.Floor(pre+"calls.RandomExchangeable", n/2)
+		r.Floor(pre+"calls.Trusted", n/3)
+		r.Floor(pre+"calls.IncreaseRetryTimes", n/3)
+		r.Floor(pre+"calls.SetHasIncomingPort", n/2)
+		r.Floor(pre+"quiescent.peers-checked", n*8)
+		r.Floor(pre+"quiescent.trusted-present-and-trusted", n/2)
+		r.Floor(pre+"quiescent.old-untrusted-peers-evicted", n/20)
+		r.Floor(pre+"savefile.entries-compared", n*8)
+		r.Floor(pre+"reads.peers-checked", n*4)
+	}
 	os.RemoveAll(base)
 	r.Finish("random sequences of 30 operations (AddPeer, AddPeers, RemovePeer, retry counters, SetHasIncomingPort, SetUserAgent, ageing, expiry pass, save+reload with injected cache entries, reads) "+
 		"on a real pex.Pex with Max in {1,2,5,50}, localhost allowed or not, 0-3 default (trusted) connections; address strings from a hostile generator (~90 classes); "+
-		"a case is non-trivial when it produces a peer list (addresses + trusted flags) not seen before",
+		"a case is non-trivial when it produces a peer list (addresses + trusted flags) not seen before. "+
+		"Concurrent leg: short rounds in which 4-16 goroutines, released from a barrier, run seeded operation lists (bulk additions of distinct valid addresses that each fill the free slots, AddPeer, RemovePeer, "+
+		"SetHasIncomingPort, retry counters, SetUserAgent, Random/RandomExchangeable/Trusted/AllTrusted, save) against one Pex with Max 8..500 and a prefilled list; every read and the quiescent list are checked "+
+		"(size <= Max, valid addresses, default connections present and trusted, nobody else trusted, saved file = list); the same rounds run in a race-instrumented build, data races inside src/daemon/pex are violations",
+		"concurrent leg: the operation lists are a function of VERIF_SEED, the interleaving is left to the Go scheduler and is neither controlled nor recorded (rounds and calls that started while another call was in flight are counted; a replay repeats the round's plan 400 times)",
 		"\"global unicast\" is the address-scope class (not unspecified/loopback/link-local/multicast/broadcast); RFC 1918 private, 0/8 and 240/4 addresses count as global unicast, as the scope definition and the standard library documentation say",
 		"a port written with leading zeros denotes the same number and is accepted by the oracle (counted in list.class.*+port-leading-zero)",
 		"trusted peers are the default connections given at construction; an explicit RemovePeer of a trusted peer is not an eviction",
